@@ -23,6 +23,10 @@ type PropSpec struct {
 	Assumptions []string `json:"assumptions"`
 	Note        string   `json:"note"`
 	Bounded     []string `json:"bounded,omitempty"` // names of bounded stand-in checks (run by ./check, not govc)
+	// Includes: properties this one depends on (e.g. state-machine safety rests on election safety,
+	// log matching and leader completeness): their functions and obligations are claimed along
+	// with this property's own, so that a change that breaks the dependency is reported here too.
+	Includes []string `json:"includes,omitempty"`
 	// Exclude: glob patterns of obligations that are NOT claimed although a pattern or the
 	// automatic support closure (loop invariants of the listed functions) would select them.
 	Exclude []string `json:"exclude,omitempty"`
@@ -161,6 +165,41 @@ func cmdCheck(args []string) int {
 		fmt.Fprintln(os.Stderr, "property not claimed:", prop)
 		return 2
 	}
+	if len(spec.Includes) > 0 {
+		merged := *spec
+		merged.Functions = append([]string(nil), spec.Functions...)
+		merged.Obligations = append([]string(nil), spec.Obligations...)
+		merged.Assumptions = append([]string(nil), spec.Assumptions...)
+		hasF := map[string]bool{}
+		for _, f := range merged.Functions {
+			hasF[f] = true
+		}
+		hasO := map[string]bool{}
+		for _, o := range merged.Obligations {
+			hasO[o] = true
+		}
+		for _, inc := range spec.Includes {
+			for i := range specs {
+				if specs[i].ID != inc {
+					continue
+				}
+				for _, f := range specs[i].Functions {
+					if !hasF[f] {
+						hasF[f] = true
+						merged.Functions = append(merged.Functions, f)
+					}
+				}
+				for _, o := range specs[i].Obligations {
+					if !hasO[o] {
+						hasO[o] = true
+						merged.Obligations = append(merged.Obligations, o)
+					}
+				}
+				merged.Assumptions = append(merged.Assumptions, "includes the claims of "+inc+" (a property this one depends on), with "+inc+"'s assumptions")
+			}
+		}
+		spec = &merged
+	}
 	var findings []KnownFinding
 	loadJSON(filepath.Join(*vdir, "KNOWN_FINDINGS.json"), &findings)
 	baseline := map[string][]string{}
@@ -174,7 +213,7 @@ func cmdCheck(args []string) int {
 	tLoad := time.Since(t0).Seconds()
 	dir, _ := os.MkdirTemp("/var/tmp", "govc-")
 	defer os.RemoveAll(dir)
-	timeout := 10
+	timeout := 20
 	if tier == "thorough" {
 		timeout = 60
 	}
@@ -341,6 +380,15 @@ func cmdCheck(args []string) int {
 			base[n] = true
 		}
 	}
+	// A callee precondition (call: / spawn:) that discharges at every site of the unchanged tree
+	// and is not discharged at a site the change has added is the same contract clause failing:
+	// it is reported as a violation, not as undecided.
+	baseClause := map[string]bool{}
+	for n := range base {
+		if k := clauseKey(n); k != "" {
+			baseClause[k] = true
+		}
+	}
 	seen := map[string]bool{}
 	violations := 0
 	undecided := 0
@@ -380,7 +428,7 @@ func cmdCheck(args []string) int {
 		}
 		switch {
 		case st == "proved":
-		case st == "failed" || base[a.name]:
+		case st == "failed" || base[a.name] || baseClause[clauseKey(a.name)]:
 			// violation: counterexample, or an obligation that discharged on the unchanged tree no longer does
 			violations++
 			var bad *Obligation
@@ -624,4 +672,15 @@ func sortedKeys2(m map[string]string) []string {
 	}
 	sort.Strings(ks)
 	return ks
+}
+
+// clauseKey returns the callee-clause part of a call-site obligation name
+// ("<caller>.call:<callee>.<label>" / "<caller>.spawn:<callee>.<label>"), or "".
+func clauseKey(name string) string {
+	for _, m := range []string{".spawn:", ".call:"} {
+		if i := strings.Index(name, m); i >= 0 {
+			return name[i:]
+		}
+	}
+	return ""
 }
